@@ -23,6 +23,7 @@ class Path:
         self.final_call = None
         self.notes = []
         self.dead = False
+        self.returned = None  # None, or how the path left the function early: "call" (delegates to a decoder) / "err" / "other"
 
     def fork(self):
         p = Path()
@@ -33,6 +34,7 @@ class Path:
         p.body_len, p.body_buf, p.passed, p.final_call = self.body_len, self.body_buf, self.passed, self.final_call
         p.body_decrypted = self.body_decrypted
         p.notes = list(self.notes)
+        p.returned = self.returned
         return p
 
 
@@ -227,6 +229,20 @@ class FrameReader:
             return self.if_expr(n, p)
         if t == "match":
             return self.match_expr(n, p)
+        if t == "ret":
+            out = []
+            inner = n[1] if len(n) > 1 else None
+            res = self.ev(inner, p) if inner is not None else [(p, None)]
+            for q, v in res:
+                e = H.strip(inner) if inner is not None else None
+                if e is not None and H.tag(e) == "call" and (H.call_path(e) or "").split("::")[-1] == "Err":
+                    q.returned = "err"
+                elif q.final_call is not None:
+                    q.returned = "call"
+                else:
+                    q.returned = "other"
+                out.append((q, None))
+            return out
         if t == "bin":
             return [(p, None)]
         return [(p, None)]
@@ -306,10 +322,12 @@ class FrameReader:
             out = self.ev(then, a)
             out += self.ev(els, b) if els is not None else [(b, None)]
             return out
-        # other conditions (opcode == M::OPCODE ...) : follow both, keep effects of the then-branch
+        # other conditions (opcode == M::OPCODE ...): follow both branches; without an else the fall-through path continues too
         out = self.ev(then, p.fork())
         if els is not None:
             out += self.ev(els, p.fork())
+        else:
+            out.append((p.fork(), None))
         p.dead = True
         return out
 
@@ -357,6 +375,9 @@ class FrameReader:
         for st in b[1]:
             nxt = []
             for q in paths:
+                if q.returned is not None:
+                    nxt.append(q)
+                    continue
                 if st[0] == "let":
                     if st[2] is None:
                         nxt.append(q)
@@ -372,7 +393,9 @@ class FrameReader:
             paths = nxt
         out = []
         for q in paths:
-            if b[2] is not None:
+            if q.returned is not None:
+                out.append((q, None))
+            elif b[2] is not None:
                 out += self.ev(b[2], q)
             else:
                 out.append((q, None))
